@@ -1062,11 +1062,34 @@ class SymEx:
             if any(bn.split('.')[-1] in ('IntEnum', 'IntFlag', 'StrEnum') for k_ in c_.mro() for bn in k_.base_names):
                 out.append(lit)
             else:
-                out.append(self._enum_member(c_, name, lit, expr))
+                m_ = self._enum_member(c_, name, lit, expr)
+                if m_ not in out:           # (a name whose value repeats an earlier member's is an alias of it, not a member of its own)
+                    out.append(m_)
         return ('list', tuple(out)) if out else v
 
     def _enum_member(self, c_, name, lit, node):
         """the member NAME = value of a plain Enum: a record (name, value) - plus the attributes a class-defined __init__(self, *value) assigns from the value"""
+        # Enum semantics: a name bound to a value an earlier name already has is an ALIAS - Class.LATER is the earlier member itself
+        if not getattr(self, '_in_alias_scan', False):
+            self._in_alias_scan = True
+            try:
+                for n0, e0 in c_.class_attrs.items():
+                    if n0 == name:
+                        break
+                    if n0.startswith('_') or c_.lookup(n0) is not None:
+                        continue
+                    self.frames.append(self.M.module_func(c_.mod))
+                    try:
+                        r0 = self.ev(e0, State())
+                    except Undecided:
+                        r0 = []
+                    finally:
+                        self.frames.pop()
+                    if len(r0) == 1 and r0[0][1] == lit:
+                        name, node = n0, e0
+                        break
+            finally:
+                self._in_alias_scan = False
         fields = {'name': ('str', name), 'value': lit}
         init = c_.methods.get('__init__')
         if init is not None:
@@ -2135,6 +2158,26 @@ class SymEx:
                         else:
                             out.append((x, self._enum_member(c_, e.attr, lit, c_.class_attrs[e.attr])))
                         continue
+                if c_ is not None and e.attr == '__members__' and any(bn.split('.')[-1] == 'Enum' for k_ in c_.mro() for bn in k_.base_names):
+                    # every NAME of the enumeration in definition order, aliases included, with the member it denotes
+                    items_ = []
+                    for n0, e0 in c_.class_attrs.items():
+                        if n0.startswith('_') or c_.lookup(n0) is not None:
+                            continue
+                        self.frames.append(self.M.module_func(c_.mod))
+                        try:
+                            r0 = self.ev(e0, State())
+                        except Undecided:
+                            r0 = []
+                        finally:
+                            self.frames.pop()
+                        if len(r0) != 1 or r0[0][1][0] not in ('num', 'str', 'tuple'):
+                            items_ = None
+                            break
+                        items_.append((('str', n0), self._enum_member(c_, n0, r0[0][1], e0)))
+                    if items_:
+                        out.append((x, ('dict', tuple(items_))))
+                        continue
                 m_ = c_.lookup(e.attr) if c_ is not None else None
                 if m_ is not None and not m_.is_property:
                     out.append((x, ('fn', m_.qn)))          # Class.method used as a value
@@ -2300,6 +2343,7 @@ class SymEx:
                 if len(r) != 1:
                     raise Undecided('forking comprehension iterator at %s' % self.site(e))
                 x, it = r[0]
+                it = self._enum_members(it)         # for member in EnumClass: the members in definition order
                 names = sorted(self._assigned_names([g.target]), key=lambda n: _first_pos(g.target, n))
                 tv = []
                 for n in names:
@@ -2669,6 +2713,20 @@ class SymEx:
                     else:
                         out.extend(self.call_opaque(e, fv, args, kwargs, y))
                 return out
+        if isinstance(f, ast.Attribute) and not self.suppress and isinstance(f.value, ast.Name) and f.value.id == 'self' and self.fn.cls is not None:
+            # self.prop(args): prop is a PROPERTY - what is called is the value the property answers (a class, a function), not a method of that name
+            k_ = self.dyn.get(len(self.frames)) or self.fn.cls
+            pm_ = k_.lookup(f.attr)
+            if pm_ is not None and pm_.is_property:
+                fvs = self.ev(ast.copy_location(ast.Attribute(value=f.value, attr=f.attr, ctx=ast.Load()), f), st)
+                if fvs and all(y_.exc is not None or _callable_value(fv_, self) for y_, fv_ in fvs):
+                    out = []
+                    for y_, fv_ in fvs:
+                        if y_.exc is not None:
+                            out.append((y_, ZERO))
+                        else:
+                            out.extend(self.call_value(e, fv_, args, kwargs, y_))
+                    return out
         if is_nt_attr(recv, f):
             return self.nt_method(e, recv, f.attr, args, kwargs, st)
         if isinstance(f, ast.Attribute) and f.attr in ('bind', 'bind_partial') and recv is not None and recv[0] == 'call' and recv[1] == ('ext', 'inspect.signature') \
@@ -2861,6 +2919,8 @@ class SymEx:
             if f.attr == 'get' and len(args) == 1 and not kws and not _is_queue(self.M, fn, f.value, self.tenv(), recv):
                 # d.get(k): the element when present, None otherwise
                 return [(st, ('call', ('ext', 'GET'), (recv, args[0]), ()))]
+            if recv is not None and recv[0] == 'str' and f.attr in T.STR_METHODS and not args and not kws:
+                return [(st, ('str', T.STR_METHODS[f.attr](recv[1])))]          # 'DAILY'.lower() is 'daily'
             res = ('call', ('meth', f.attr), (recv,) + tuple(args), kws)
             x = st.ev(Ev('call', callee=['meth:' + f.attr], args=dict(enumerate(args)), site=site, fn=fn.qn, how=how, layer=0,
                          result=res, node=e, recv=recv, kwargs=dict(kwargs)))
@@ -2967,6 +3027,13 @@ class SymEx:
                 return r_
         if fv[0] == 'nt':
             tname, fields = fv[1], tuple(fv[2].split(','))
+            if len(args) == 1 and args[0][0] == 'starred' and not kwargs:
+                # Quote(*pair): the sequence unpacked over the fields - a written-out one element by element, any other by position
+                items_ = _seq_items(args[0][1])
+                if items_ is None:
+                    items_ = [self.subscript(args[0][1], num(k_), st) for k_ in range(len(fields))]
+                if len(items_) == len(fields) and not any(a_[0] == 'starred' for a_ in items_):
+                    args = list(items_)
             vals = dict(zip(fields, args))
             vals.update({k: v for k, v in kwargs if k in fields})
             dflt = NT_DEFAULTS.get(tname, {})
@@ -3224,6 +3291,27 @@ class SymEx:
             for z in args[0][1]:
                 d_[z[1][0]] = z[1][1]
             return [(st, ('dict', tuple(d_.items())))]
+        if fv in (('ext', 'ANY'), ('ext', 'ALL')) and len(args) == 1 and not kws and args[0][0] == 'comp' and args[0][1] in ('gen', 'list') and len(args[0][3]) == 1:
+            # any(e(x) for x in <written-out items> if c(x)): the tests written out one by one - [c(x1) and e(x1), c(x2) and e(x2), ...] (all: [not c(x1) or e(x1), ...])
+            shape_, it_, ifs_ = args[0][3][0]
+            items_ = _const_items(it_)
+            if items_ is not None and len(shape_) == 1 and shape_[0][0] == 'bv' and ifs_:
+                def fold_(t_):
+                    return T.replace(t_, lambda z: dict(z[1][2]).get(z[2]) if z[0] == 'attr' and z[1][0] == 'new' and z[2] in dict(z[1][2]) else None)
+                terms_ = []
+                for v_ in items_:
+                    rep_ = lambda z, v_=v_: v_ if z == shape_[0] else None
+                    cs_ = [fold_(T.replace(q_, rep_)) for q_ in ifs_]
+                    e_ = fold_(T.replace(args[0][2], rep_))
+                    tvs_ = [truth(c_) for c_ in cs_]
+                    if any(t_ is False for t_ in tvs_):
+                        continue
+                    cs_ = [c_ for c_, t_ in zip(cs_, tvs_) if t_ is None]
+                    if fv[1] == 'ANY':
+                        terms_.append(('and', tuple(cs_) + (e_,)) if cs_ else e_)
+                    else:
+                        terms_.append(('or', tuple(('not', c_) for c_ in cs_) + (e_,)) if cs_ else e_)
+                args = [('list', tuple(terms_))]
         if fv == ('ext', 'functools.reduce') and len(args) == 2 and not kws and args[0] == ('ext', 'operator.add') and args[1][0] in ('list', 'tuple') and args[1][1] \
                 and not any(z[0] == 'starred' for z in args[1][1]):
             tot = args[1][1][0]                                     # a left fold of + over a written-out sequence
